@@ -1,4 +1,4 @@
-\* behaviour generation by simulation: tree N1, 4 validity assignments, 7 submittable txs (each twice), 3 own blocks
+\* behaviour generation by simulation: tree N1, 4 validity assignments, 7 submittable txs, 3 own blocks; depth 16 = every action once, in random order
 SPECIFICATION Spec
 CONSTANTS
   Blocks <- N1Blocks
@@ -11,7 +11,7 @@ CONSTANTS
   Accounts <- AB
   ValidChoices <- N1Valid
   Submittable <- N1Sub
-  MaxSub = 2
+  MaxSub = 1
   PNames <- P3
   Observing = TRUE
 VIEW view
